@@ -124,6 +124,20 @@ def c01_wedge_gen(rng, tier):
             reply = struct.pack(">HHHHHH", 0, 0x8180, 1, 1, 0, 0) + name + b"\0" + struct.pack(">HH", 1, 1) + \
                 b"\xc0\x0c" + struct.pack(">HHIH", 1, 1, 60, 4) + bytes([10, 0, 0, 1])
             out.append("wh%d cfg=%s l=%s mode=httpraw bad=%s q=%s up=reply:%s" % (i, cfg, l, gens.hx(raw), gens.hx(q), gens.hx(reply)))
+    # raw octets on the TLS-based stream listeners: cleartext HTTP / DNS frames / garbage / a truncated ClientHello where a
+    # TLS handshake is expected
+    hello = b"\x16\x03\x01\x00\xc8\x01\x00\x00\xc4\x03\x03" + bytes(rng.randrange(256) for _ in range(60))
+    tls_raw = [b"", b"\x00", hello, hello[:5], b"\x16\x03\x01\xff\xff" + b"\0" * 100, b"\x15\x03\x03\x00\x02\x02\x28",
+               b"GET /dns-query HTTP/1.1\r\nHost: x\r\n\r\n", b"\x00\x1d" + bytes(29), bytes(rng.randrange(256) for _ in range(700)),
+               b"\x17\x03\x03\x40\x00" + bytes(1000)]
+    for j, raw in enumerate(tls_raw):
+        for l in ("tls", "https-post"):
+            i = n + 1000 + 2 * j + (l == "tls")
+            name = gens.raw_name([b"okt%d" % i, b"test"])
+            q = struct.pack(">HHHHHH", rng.randrange(65536), 0x0100, 1, 0, 0, 0) + name + b"\0" + struct.pack(">HH", 1, 1)
+            reply = struct.pack(">HHHHHH", 0, 0x8180, 1, 1, 0, 0) + name + b"\0" + struct.pack(">HH", 1, 1) + \
+                b"\xc0\x0c" + struct.pack(">HHIH", 1, 1, 60, 4) + bytes([10, 0, 0, 1])
+            out.append("wt%d cfg=%s;T=1 l=%s mode=tlsraw bad=%s q=%s up=reply:%s" % (i, cfg, l, gens.hx(raw), gens.hx(q), gens.hx(reply)))
     return out
 
 
